@@ -608,6 +608,9 @@ class Sym:
     def chunk(self, chunks, dim=0):
         return chunk(self, chunks, dim)
 
+    def unbind(self, dim=0):
+        return unbind(self, dim)
+
     # ---- arithmetic ------------------------------------------------------------------------------
     def _bin(self, o, f):
         if isinstance(o, (Sym, torch.Tensor, S, np.ndarray)) or sc._is_num(o):
@@ -1496,6 +1499,12 @@ def cat(tensors, dim=0, out=None):
 @handles("stack")
 def stack(tensors, dim=0):
     return Sym(np.stack([arr(t) for t in tensors], axis=dim))
+
+
+@handles("unbind")
+def unbind(a, dim=0):
+    A = lift(a).a
+    return tuple(Sym(np.take(A, i, axis=dim)) for i in range(A.shape[dim]))
 
 
 @handles("chunk")
